@@ -99,7 +99,7 @@ func runC12(c *core.Ctx) {
 		}
 		// begin/end markers
 		src := c.Prog.Src(fn.Decl.Body)
-		o.Require(strings.Contains(src, "desc:=[]byte{descValidBegin}") && strings.Contains(src, "desc=append(desc,descValidEnd)"), "the descriptor is not framed by begin/end markers")
+		o.Shape(strings.Contains(src, "desc:=[]byte{descValidBegin}") && strings.Contains(src, "desc=append(desc,descValidEnd)"), "the descriptor is not framed by begin/end markers")
 	})
 	c.Check("C12-R2", pkg+".consume-constants", "builder and decoder agree on the 'invalid, consume k more bytes' encoding", func(o *core.Ob) {
 		want := map[string]int64{"validLeaf": 0, "invalidConsume3": 0xfffc, "invalidConsume2": 0xfffd, "invalidConsume1": 0xfffe, "invalidConsume0": 0xffff}
@@ -113,9 +113,9 @@ func runC12(c *core.Ctx) {
 		src := c.Prog.Src(nl.Decl.Body)
 		o.At(nl.Site(nl.Decl, "registration"))
 		for k, name := range map[string]string{"0x00": "invalidConsume0", "0x01": "invalidConsume1", "0x02": "invalidConsume2", "0x03": "invalidConsume3"} {
-			o.Require(strings.Contains(src, "done[string([]byte{descInvalid,"+k+"})]="+name), "descriptor {invalid,%s} is not registered as %s", k, name)
+			o.Shape(strings.Contains(src, "done[string([]byte{descInvalid,"+k+"})]="+name), "descriptor {invalid,%s} is not registered as %s", k, name)
 		}
-		o.Require(strings.Contains(src, "done[string([]byte{descValidBegin,descValidEnd})]=validLeaf"), "the leaf descriptor is not registered as validLeaf")
+		o.Shape(strings.Contains(src, "done[string([]byte{descValidBegin,descValidEnd})]=validLeaf"), "the leaf descriptor is not registered as validLeaf")
 		// newTree's invalid descriptor carries minLength - alreadyConsumed in both places
 		nt := c.Prog.Func(pkg, "newTree")
 		ns := c.Prog.Src(nt.Decl.Body)
@@ -266,9 +266,9 @@ func runC12(c *core.Ctx) {
 		o.Require(cases["len(childRanges)"] && cases["0"], "expected the cases 'all children are leaves' and 'no child is a leaf'")
 		// numLeaves counts ranges of length depth+1
 		src := c.Prog.Src(fn.Decl.Body)
-		o.Require(strings.Contains(src, "iflen(r.Low)==depth+1{numLeaves++}"), "leaves are not identified as ranges of length depth+1")
+		o.Shape(strings.Contains(src, "iflen(r.Low)==depth+1{numLeaves++}"), "leaves are not identified as ranges of length depth+1")
 		// errors of the recursive call propagate
-		o.Require(strings.Contains(src, "cc,dd,err:=newTree(childRanges,depth+1)iferr!=nil{returnnil,nil,err}"), "an error from the recursive construction is not propagated")
+		o.Shape(strings.Contains(src, "cc,dd,err:=newTree(childRanges,depth+1)iferr!=nil{returnnil,nil,err}"), "an error from the recursive construction is not propagated")
 	})
 	c.Check("C12-R5", pkg+".minLength", "for an invalid code the number of bytes consumed derives from the SHORTEST range length (ISO 32000-2 9.7.6.3), and at least one byte is always consumed", func(o *core.Ob) {
 		fn := c.Prog.Func(pkg, "minLength")
